@@ -33,7 +33,7 @@ def generate(rng, tier):
     fams = ["ortho", "cubic"] if use_mic else ["ortho", "cubic", "tri_pos", "tri_neg", "tri_mixed"]
     spec = worlds.gen_find_world(rng, max_atoms=14, max_copies=2, min_copies=1, cell_families=fams, hints_prob=0.0, decoys=rng.random() < 0.4,
                                  families=["pair", "collinear", "planar", "asymmetric", "c2", "c3", "td", "chiral"], atols=[0.05, 0.1, 0.2, 0.02],
-                                 width_mult=rng.choice([1.0, 1.3]))
+                                 width_mult=rng.choice([1.0, 1.3]), round_cell=3 if use_mic else None)
     replcheck.add_metadata(rng, spec)
     P = np.array(spec["pattern"]["positions"], float).reshape(-1, 3)
     mode = rng.choice(["replace", "replace", "replace", "find"])
@@ -56,6 +56,8 @@ def generate(rng, tier):
         target = rng.choice([1, 2, 2, 3])
         k = rng.randrange(3)
         opts["mic"] = round(float(L[k]) * (target - rng.uniform(0.05, 0.9)) / 2.0, 3)
+        if rng.random() < 0.3:
+            opts["mic"] = float(L[k]) * target / 2.0          # 2*mic/L is exactly an integer
         if np.prod(np.ceil(2 * opts["mic"] / L)) * np.prod(opts.get("replicate") or [1, 1, 1]) > 18:
             opts["mic"] = round(float(L.min()) * 0.45, 3)
     if rng.random() < 0.4:
@@ -70,6 +72,12 @@ def generate(rng, tier):
     opts["pat_fmt"] = rng.choice(["cml", "cml", "lmpdat", "cif"])
     opts["out_fmt"] = rng.choice(["lmpdat", "lmpdat", "cif"])
     opts["short_flags"] = rng.random() < 0.5
+    opts["same_file"] = mode == "replace" and rng.random() < 0.1      # -f and -r name the same path (parameterising a structure with one file)
+    if opts["same_file"]:
+        spec["replace"] = {"elements": list(spec["pattern"]["elements"]), "positions": [list(x) for x in spec["pattern"]["positions"]],
+                           "charges": None, "groups": None, "mode": "identity"}
+        opts["pat_fmt"] = "lmpdat"
+    opts["unwrapped"] = rng.random() < 0.15        # some atoms given outside the cell (periodic images of the wrapped ones)
     spec["opts"] = opts
     spec["script"] = spec["scripts"][rng.randrange(len(spec["scripts"]))]
     return spec
@@ -80,6 +88,10 @@ def _write_inputs(spec, d):
     from mofun import Atoms
     o = spec["opts"]
     S = replcheck.build_structure(spec)
+    if o.get("unwrapped"):
+        c = np.array(spec["cell"], float)
+        S.positions[::3] += c[0]
+        S.positions[1::4] -= c[1]
     paths = {}
     if o["in_fmt"] == "lmpdat":
         paths["input"] = os.path.join(d, "structure.lmpdat")
@@ -109,7 +121,7 @@ def _write_inputs(spec, d):
         return p
     paths["find"] = write_pattern(spec["pattern"], "find")
     if o["mode"] == "replace":
-        paths["replace"] = write_pattern(spec["replace"], "replace")
+        paths["replace"] = paths["find"] if o.get("same_file") else write_pattern(spec["replace"], "replace")
     if o.get("charges"):
         paths["charges"] = os.path.join(d, "charges.txt")
         with open(paths["charges"], "w") as f:
@@ -176,7 +188,9 @@ def _api_path(ctx, spec, paths, out, taps):
             kw["replace_fraction"] = o["fraction"]
         atoms = mofun.replace_pattern_in_structure(atoms, search, replace, **kw)
     else:
-        found = mofun.find_pattern_in_structure(atoms, search, atol=spec["atol"])
+        atoms.save(out)                      # "writes the structure unmodified": saved before any search touches it
+        found = mofun.find_pattern_in_structure(atoms.copy(), search, atol=spec["atol"])
+        return pre, found
     atoms.save(out)
     return pre, found
 
@@ -258,7 +272,7 @@ def execute(spec, ctx):
                     raise Violation("cli:structure-differs-before-replace", "the structure handed to the replacement differs from load -> charges -> replicate -> mic -> pp through the API", site=site)
         else:
             ctx.count("find_only_runs")
-            m = re.search(r"Found (\d+) instances", printed)
+            m = re.search(r"Found (\d+) instances", printed) if not o.get("unwrapped") else None
             if not m:
                 # the wording of the report is not specified: without the known phrase nothing is judged about stdout
                 ctx.count("find_report_not_parsed")
